@@ -320,6 +320,44 @@ def part_log():
                     line += f' ++ {lean_str(pieces[-1])}'
     if line is None:
         raise Untranslatable('PythonPlugin.log_tracepoint changed shape')
+    # ActionContext.eval_watch: which text a field gets (third component of every returned tuple)
+    ew = find_def(load(ACTX), 'ActionContext.eval_watch')
+    rets = [n for n in ast.walk(ew) if isinstance(n, ast.Return)]
+    srcs = {}
+    for r in rets:
+        if not (isinstance(r.value, ast.Tuple) and len(r.value.elts) == 3 and isinstance(r.value.elts[0], ast.Call)
+                and ast.unparse(r.value.elts[0].func) == 'WatchResult'):
+            raise Untranslatable('eval_watch: a return is no longer a (WatchResult, vars, text) tuple: ' +
+                                 ast.unparse(r)[:80])
+        wargs = r.value.elts[0].args
+        third = ast.unparse(r.value.elts[2])
+        if len(wargs) == 3:
+            kind = 'value'
+        elif len(wargs) == 4 and isinstance(wargs[3], ast.Constant) and isinstance(wargs[3].value, str):
+            kind = 'limit'
+            limit_text = wargs[3].value
+        elif len(wargs) == 4 and ast.unparse(wargs[3]) == 'str(e)':
+            kind = 'raised'
+        else:
+            raise Untranslatable('eval_watch: unknown WatchResult shape ' + ast.unparse(r.value.elts[0]))
+        if third == 'log_str':
+            src = '.logStr'
+        elif third == 'str(e)' or isinstance(r.value.elts[2], ast.Constant):
+            src = '.errorText'
+        else:
+            raise Untranslatable('eval_watch: field text is ' + third)
+        if kind in srcs:
+            raise Untranslatable('eval_watch: two returns of kind ' + kind)
+        srcs[kind] = src
+    if set(srcs) != {'value', 'limit', 'raised'}:
+        raise Untranslatable('eval_watch: returns %s' % sorted(srcs))
+    watch_part = ('/-- `ActionContext.eval_watch`: where the text of a field comes from — the log string of the evaluated\n'
+                  '    result (`str` of the value, or of the exception when evaluation failed), or an error text — when the\n'
+                  '    value was recorded, and when the snapshot\'s variable budget was already spent -/\n'
+                  'inductive FieldTextSrc | logStr | errorText\nderiving DecidableEq, Repr\n'
+                  f'def watchTextOnValue : FieldTextSrc := {srcs["value"]}\n'
+                  f'def watchTextOnLimit : FieldTextSrc := {srcs["limit"]}\n'
+                  f'def watchLimitText : String := {lean_str(limit_text)}\n\n')
     # snapshot + log
     sp = find_def(load(SNAP), 'SnapshotActionContext._process_action')
     stmts = set()
@@ -332,7 +370,8 @@ def part_log():
                    'context.var_cache = self.var_cache'):
         if needle not in stmts:
             raise Untranslatable('SnapshotActionContext._process_action: missing `%s`' % needle)
-    return ('/-- `LogActionContext.process_log`: message = logPrefix ++ formatted template ++ logSuffix -/\n'
+    return (watch_part +
+            '/-- `LogActionContext.process_log`: message = logPrefix ++ formatted template ++ logSuffix -/\n'
             f'def logPrefix : String := {lean_str(pre)}\n'
             f'def logSuffix : String := {lean_str(post)}\n\n'
             'inductive LogArg | msg | tpId | ctxId\nderiving DecidableEq, Repr\n\n'
